@@ -17,6 +17,7 @@ var clientEntryPoints = []string{
 
 func init() {
 	register("C09", func(c *core.Ctx, tier string) {
+		pollInstalledOnlyWhileClientIsThere(c, "C09.22")
 		wsInflatedBound(c, "C09.17")
 		requestRevalidatesTransport(c, "C09.18")
 		handlerReleasedUnderMutex(c, "C09.19")
